@@ -10,6 +10,7 @@ import (
 
 var checks = map[string]func(*lib.Run){
 	"C01": lib.CheckC01,
+	"C02": lib.CheckC02,
 	"C03": lib.CheckC03,
 }
 
